@@ -356,7 +356,7 @@ func (s *supARFO) childTerminated(name gen.Atom, pid gen.PID, reason error) supA
 		action.reason = ErrSupervisorRestartsExceeded
 		s.wait = wait
 		s.mode = 3 // shutdown
-		s.shutdownReason = reason
+		s.shutdownReason = ErrSupervisorRestartsExceeded
 		return action
 	}
 
